@@ -49,6 +49,8 @@ VARIABLES
              \*   verboses, savings, njobs   sets of values explored for the axes C01 declares irrelevant
              \*   faultsat   subset of {"sampler", "model", "loss"}: plug-ins that may raise
              \*   restore    CreateCheckpoint / Restore enabled
+             \*   burn       draws the seed cascade takes from the calibrator's generator (the code: one per sampler; no
+             \*              property depends on the number - MC_C01 explores several)
   pc,        \* control state of the calibrator object
   cfg,       \* [verbose, saving, njobs]  chosen once (irrelevant axes)
   todo,      \* batches still to run in the current call
@@ -86,6 +88,7 @@ Savings == K.savings
 NJobsSet == K.njobs
 FaultsAt == K.faultsat
 AllowRestore == K.restore
+Burn == K.burn
 
 None == <<>>          \* optional values are sequences of length 0 or 1 (TLC cannot compare a record with a string)
 Some(x) == <<x>>
@@ -161,11 +164,11 @@ Calibrate(n) ==
   /\ UNCHANGED <<cfg, bi, ns, hist, cur, rng, samp, served, best, line, idt, disk, alive>>
 
 (* Calibrator._set_samplers_seeds: the scheduler's generator is re-rooted at the calibrator seed and hands one
-   seed to every sampler (which also resets sequence cursors: k := 0); the calibrator burns one draw per sampler *)
+   seed to every sampler (which also resets sequence cursors: k := 0); the calibrator burns Burn draws (one per sampler in the code) *)
 SeedCascade ==
   /\ pc = "seed"
   /\ samp' = [i \in 1..Len(line) |-> [root |-> "cal", k |-> 0]]
-  /\ rng' = rng + Len(line)
+  /\ rng' = rng + Burn
   /\ pc' = "start"
   /\ UNCHANGED <<cfg, todo, call, bi, ns, hist, cur, served, best, line, idt, disk, alive, brk, calls, outcome, clean>>
 
@@ -415,7 +418,7 @@ RefRow(b, j, lossOf) ==
       par == <<s, "cal", RefK(b), j>>
       g == RowsBefore(b) + j          \* global row number
   IN [par |-> par,
-      ser |-> [p |-> par, seeds |-> [e \in 1..E |-> Len(LineUp) + (g - 1) * E + e]],
+      ser |-> [p |-> par, seeds |-> [e \in 1..E |-> Burn + (g - 1) * E + e]],
       loss |-> lossOf, batch |-> b, meth |-> Construct(LineUp)[LineUp[s].cls], cls |-> LineUp[s].cls]
 (* hist matches the reference in everything but the (scripted, nondeterministic) loss value *)
 MatchesRef == \A i \in Rows :
